@@ -115,6 +115,10 @@ def gen_cases(tier, seed):
             for op in BIN:
                 for a, b in pairs(t1, t2, 1, lit2=True):
                     cases.append("foldr %s %s %s %s %s" % (op, t1, a, t2, b))
+        # the same variable on both sides: x == x, x - x, x / x, … (incl. NaN, infinities, zero, MIN)
+        for op in BIN:
+            for a in (sorted(set(pick(vals(t1), per) + [vals(t1)[0], vals(t1)[-1], "0"])) if t1 in ITYPES else vals(t1)):
+                cases.append("self %s %s %s %s %s" % (op, t1, a, t1, a))
         for op in UN:
             for a in pick(vals(t1), per + 1) + [vals(t1)[0], vals(t1)[-1]]:
                 cases.append("pre %s %s %s - -" % (op, t1, a))
@@ -190,9 +194,10 @@ def nontrivial(case, spec):
 
 def run(c, cases, hbin, mbin, sbin):
     rc, impl, err = vlib.run_lines(hbin, cases, timeout=3000)
-    rc3, specs, err3 = vlib.run_lines(sbin, cases, timeout=3000)
+    as_bin = [("bin" + c[4:]) if c.startswith("self ") else c for c in cases]     # for the specification, `a op a` is `a op b` with equal operands
+    rc3, specs, err3 = vlib.run_lines(sbin, as_bin, timeout=3000)
     if mbin:
-        rc2, model, err2 = vlib.run_lines(mbin, cases, timeout=3000)
+        rc2, model, err2 = vlib.run_lines(mbin, as_bin, timeout=3000)
     else:
         model, err2 = [None] * len(cases), ""
     if len(impl) != len(cases) or len(model) != len(cases) or len(specs) != len(cases):
@@ -267,7 +272,7 @@ def replay(path):
         return 1
     case = r["failure"]["case"]["case"]
     _, i, _ = vlib.run_lines(hbin, [case])
-    _, m, _ = vlib.run_lines(mbin, [case])
+    _, m, _ = vlib.run_lines(mbin, [("bin" + case[4:]) if case.startswith("self ") else case])
     spec = m[0]
     print("case:", case, "\nimpl:", i[0], "\nspec:", spec)
     ok = satisfies(case, i[0], spec)
